@@ -174,11 +174,8 @@ class ThreadPool:
         """
         self.joined = False
         self.started = True
-        # Start some threads.
+        # Start some threads, including some for work submitted before now.
         self.adjustPoolsize()
-        backlog = self._team.statistics().backloggedWorkCount
-        if backlog:
-            self._team.grow(backlog)
 
     def startAWorker(self) -> None:
         """
@@ -329,6 +326,12 @@ class ThreadPool:
         # Start some threads if we have too few.
         if self.workers < self.min:
             self._team.grow(self.min - self.workers)
+        # Work that found no worker under the previous limit is otherwise only
+        # retried when a worker becomes idle; if there is no worker at all (the
+        # pool was not started, or its maximum was 0) that never happens.
+        backlog = self._team.statistics().backloggedWorkCount
+        if backlog:
+            self._team.grow(backlog)
 
     def dumpStats(self) -> None:
         """
